@@ -108,8 +108,8 @@ func l1Corpus(c *Ctx, family string, sampleEvery int) []reqCase {
 	out = append(out, reqCase{ID: "types/many", Files: []*spec.File{corpus.ManyTypesFile(family+".mt", family+"mt")}})
 	out = append(out, reqCase{ID: "headers/count", Files: []*spec.File{corpus.HeaderCountFile(family+".hc", family+"hc")}})
 	out = append(out, reqCase{ID: "requests/shared", Files: []*spec.File{corpus.SharedRequestFile(family+".sr", family+"sr")}})
-	out = append(out, reqCase{ID: "routes/same-route-in-two-services/one-file", Files: corpus.SameRouteServices(family+".same1", family+"same1", false)})
-	out = append(out, reqCase{ID: "routes/same-route-in-two-services/two-packages", Files: corpus.SameRouteServices(family+".same2", family+"same2", true)})
+	out = append(out, reqCase{ID: "same-route/two-services/one-file", Files: corpus.SameRouteServices(family+".same1", family+"same1", false)})
+	out = append(out, reqCase{ID: "same-route/two-services/two-packages", Files: corpus.SameRouteServices(family+".same2", family+"same2", true)})
 	t, s, u := corpus.MultiFilePackage(family+".multi", family+"multi")
 	out = append(out, reqCase{ID: "multifile/package", Files: []*spec.File{t, s}, Extra: u})
 	out = append(out, reqCase{ID: "multifile/same-package-siblings", Files: corpus.SiblingFiles(family+".sib", family+"sib")})
@@ -278,6 +278,11 @@ func c15(c *Ctx) {
 					a, okA := base.Files[n]
 					b, okB := other.Files[n]
 					if !okA {
+						// (names may come from the variation: single-file vs multi-file) a file the file's own run
+						// emits must also come out of the run that generates it together with others
+						if okB {
+							c.R.Violate(caseID, "nondeterministic", what+": file missing in baseline", map[string]any{"protos": protos, "plugin": p, "file": n, "baseline_files": base.Names()})
+						}
 						continue
 					}
 					if !okB {
@@ -396,7 +401,8 @@ func c14(c *Ctx) {
 		// import path a proto file (the definition's own, or a well-known one) is known must not make the
 		// two plugins part ways
 		params := []struct{ label, p string }{{"", ""}}
-		if c.Thorough() || i%3 == int(c.Seed)%3 {
+		tsRelated := strings.Contains(rc.ID, "ts_") || strings.Contains(rc.ID, "timestamp") || strings.Contains(rc.ID, "multifile") || strings.Contains(rc.ID, "none/messages")
+		if c.Thorough() || i%3 == int(c.Seed)%3 || tsRelated {
 			params = append(params, struct{ label, p string }{"/param=paths-source-relative", "paths=source_relative"},
 				struct{ label, p string }{"/param=M-timestamp-to-ptypes", "Mgoogle/protobuf/timestamp.proto=github.com/golang/protobuf/ptypes/timestamp"},
 				struct{ label, p string }{"/param=M-own-file-elsewhere", "M" + rc.Files[len(rc.Files)-1].Path + "=example.com/elsewhere/pkg;pkgx"},
@@ -443,7 +449,17 @@ func c14(c *Ctx) {
 					c.R.Violate(caseID, "same-name-files-differ", suffixOf(n), map[string]any{"protos": protos, "file": n, "offset": d, "go_http": around(a, d), "go_client": around(b, d)})
 				}
 			}
-			c.R.Count("same_name_files_compared", both)
+			// and the other way round: a codec file only the client plugin writes means the server-side package
+		// lacks that codec
+		for _, n := range cl.Names() {
+			if _, ok := h.Files[n]; ok {
+				continue
+			}
+			if !strings.HasSuffix(n, "_client.pb.go") && !strings.HasSuffix(n, "_unwrap.pb.go") {
+				c.R.Violate(caseID, "codec-file-missing-in-server", suffixOf(n), map[string]any{"protos": protos, "file": n, "server_files": h.Names(), "parameter": pr.p})
+			}
+		}
+		c.R.Count("same_name_files_compared", both)
 			c.R.Decided(caseID)
 			if rc.ID == "multifile/package" && pr.p == "" {
 				c.R.Sample(map[string]any{"case": caseID, "go_http_files": h.Names(), "go_client_files": cl.Names(), "same_name_files": both})
